@@ -23,10 +23,10 @@ theorem dropped_upper_incl (a : NumArg) : (RefineCall.numUpper a true).dropped =
 theorem Effect.comp {b b1 b2 : Builder} {c1 c2 c : RefineCall} (e1 : Effect b b1 c1) (e2 : Effect b1 b2 c2)
     (h1 : c1.dropped = false) (h2 : c2.dropped = false) (hc : c.dropped = false)
     (hden : ∀ x, den c x = (den c1 x && den c2 x)) : Effect b b2 c := by
-  obtain ⟨s1, w1, g1⟩ := e1
-  obtain ⟨s2, w2, g2⟩ := e2
+  obtain ⟨s1, w1, l1, g1⟩ := e1
+  obtain ⟨s2, w2, l2, g2⟩ := e2
   simp only [h1, h2, Bool.false_eq_true, if_false] at g1 g2
-  refine ⟨s1.trans s2, fun h => w2 (w1 h), ?_⟩
+  refine ⟨s1.trans s2, fun h => w2 (w1 h), fun h => l2 (l1 h), ?_⟩
   simp only [hc, Bool.false_eq_true, if_false]
   intro x
   rw [g2, g1, hden, Bool.and_assoc]
@@ -81,7 +81,7 @@ theorem run_dyn {b : Builder} (hd : b.isDyn = true) (cs : List RefineCall) : run
 /-- narrowing, for one call -/
 theorem Effect.narrows {b b' : Builder} {c : RefineCall} (e : Effect b b' c) (x : Conc) (h : γB b' x = true) :
     γB b x = true := by
-  obtain ⟨_, _, g⟩ := e
+  obtain ⟨_, _, _, g⟩ := e
   split at g
   · rw [← g]; exact h
   · rw [g] at h; simp at h; exact h.1
@@ -90,13 +90,14 @@ theorem Effect.narrows {b b' : Builder} {c : RefineCall} (e : Effect b b' c) (x 
 shrinks; and, when no call has the dropped shape, it is exactly what the receiver
 admitted intersected with every stated constraint -/
 theorem run_effect {cs : List RefineCall} : ∀ {b b' : Builder}, b.isDyn = false → run b cs = .ok b' →
-    b.sameBase b' ∧ (b.wf = true → b'.wf = true) ∧ (∀ x, γB b' x = true → γB b x = true) ∧
+    b.sameBase b' ∧ (b.wf = true → b'.wf = true) ∧ (b.wip.lenOk = true → b'.wip.lenOk = true) ∧
+    (∀ x, γB b' x = true → γB b x = true) ∧
     (cs.all (fun c => !c.dropped) = true → ∀ x, γB b' x = (γB b x && cs.all (fun c => den c x))) := by
   induction cs with
   | nil =>
     intro b b' _ h
     simp [run] at h; subst h
-    exact ⟨Builder.sameBase.rfl' _, id, fun _ => id, fun _ x => by simp⟩
+    exact ⟨Builder.sameBase.rfl' _, id, id, fun _ => id, fun _ x => by simp⟩
   | cons c cs ih =>
     intro b b' hd h
     simp only [run] at h
@@ -106,11 +107,11 @@ theorem run_effect {cs : List RefineCall} : ∀ {b b' : Builder}, b.isDyn = fals
       simp only [Res.bind] at h
       have e := step_effect hd h1
       have hd1 : b1.isDyn = false := by rw [Builder.isDyn_congr e.1]; exact hd
-      obtain ⟨s2, w2, n2, x2⟩ := ih hd1 h
-      refine ⟨e.1.trans s2, fun hw => w2 (e.2.1 hw), fun x hx => e.narrows x (n2 x hx), ?_⟩
+      obtain ⟨s2, w2, l2, n2, x2⟩ := ih hd1 h
+      refine ⟨e.1.trans s2, fun hw => w2 (e.2.1 hw), fun hl => l2 (e.2.2.1 hl), fun x hx => e.narrows x (n2 x hx), ?_⟩
       intro hall x
       simp only [List.all_cons, Bool.and_eq_true, Bool.not_eq_eq_eq_not, Bool.not_true] at hall
-      have g1 := e.2.2
+      have g1 := e.2.2.2
       simp only [hall.1, Bool.false_eq_true, if_false] at g1
       rw [x2 (by simpa using hall.2) x, g1 x, List.all_cons, Bool.and_assoc]
     | err e => rw [h1] at h; simp [Res.bind] at h
